@@ -22,6 +22,7 @@ type Spec struct {
 	Desc *string
 
 	Arr   bool // array of Kind
+	Map   bool // map of string to Kind (exclusive with Arr); AR / AMin / AMax / ASF are then the map's rules (minPairs, maxPairs) and ext.singleForm
 	AR    bool // array rules message present
 	AMin  *uint64
 	AMax  *uint64
@@ -199,7 +200,7 @@ func (s *Spec) Encode() string {
 		"req=" + b01(s.Req),
 		"opt=" + b01(s.Opt),
 		"desc=" + optS(s.Desc),
-		"arr=" + b01(s.Arr),
+		"arr=" + map[bool]string{true: "m", false: b01(s.Arr)}[s.Map],
 		"ar=" + b01(s.AR),
 		"amin=" + optU(s.AMin),
 		"amax=" + optU(s.AMax),
@@ -332,6 +333,7 @@ func DecodeSpec(toks []string) (*Spec, error) {
 		return nil, fail("desc")
 	}
 	s.Arr, s.AR, s.R, s.Flat = flag("arr"), flag("ar"), flag("r"), flag("flat")
+	s.Map = m["arr"] == "m"
 	if s.AMin, ok = u64("amin"); !ok {
 		return nil, fail("amin")
 	}
@@ -489,6 +491,9 @@ func (s *Spec) FieldText() []string {
 	if s.Arr {
 		head += "array:" + word
 		pre = "items." + ap + "."
+	} else if s.Map {
+		head += "map:" + word
+		pre = "itemSchema." + ap + "."
 	} else {
 		head += word
 	}
@@ -499,14 +504,14 @@ func (s *Spec) FieldText() []string {
 		}
 	}
 	attr := func(k, v string) { body = append(body, "    "+k+" = "+v) }
-	if s.Arr {
+	if s.Arr || s.Map {
 		any := false
 		if s.AMin != nil {
-			attr("rules.minItems", optU(s.AMin))
+			attr(map[bool]string{true: "rules.minPairs", false: "rules.minItems"}[s.Map], optU(s.AMin))
 			any = true
 		}
 		if s.AMax != nil {
-			attr("rules.maxItems", optU(s.AMax))
+			attr(map[bool]string{true: "rules.maxPairs", false: "rules.maxItems"}[s.Map], optU(s.AMax))
 			any = true
 		}
 		if s.AUniq != nil {
